@@ -10,6 +10,15 @@ TRUST = ("Trusted: Go type checker and go/ssa (x/tools v0.29.0), CHA/VTA call gr
 
 # id -> (technique, level text, design ref)   -- only properties whose check exists are listed here
 CLAIMS = {
+    "C02": ("precondition discharge for the panicking constraint constructors at every reachable call site (difference-bound reasoning over dominating branch facts, lifted through wrappers); scan-accounting analysis of every cursor<bound loop (each trip advances, shrinks or leaves); algebraic identities of the normalisers GtEq/LtEq/AtMost/AtMost1/Eq/Exactly1 by linear forms",
+            "Decides that trivially true/false constraints are handled rather than rejected in both constraint front-ends, that the parse-time simplifiers account for every literal exactly once, and that the normalisers perform the stated sign/degree bookkeeping. Necessary conditions; slack propagation and watch maintenance are not decided.",
+            "DESIGN.md section 5, C02"),
+    "C13": ("reachable-panic classification from the four text parsers with precondition discharge (E8) and a frozen table of malformed-input panics; operator-token dataflow in the OPB line parser (accepted set and dispatch); truth-table comparison of the duplicated WCNF hard/soft predicate; normaliser identities shared with C02",
+            "Decides that no explicit panic is reachable from the parsers on grounds other than malformed input, that >= and = (and only those) are dispatched to their normalisers, that the two copies of the WCNF hard/soft predicate agree, and that the normalisers are the stated identities. That the parsed problem has the models of the text is not decided.",
+            "DESIGN.md section 5, C13"),
+    "C15": ("control-equivalence analysis in DetectAtMostOne (what is queued for removal is exactly what a constraint was added for), exit-edge analysis of the clause copy loop, linear-form and precondition check of the added constraint's degree",
+            "Decides removal soundness of at-most-one detection (nothing removed unless replaced, everything else retained, degree len-1). The clique search itself is not decided.",
+            "DESIGN.md section 5, C15"),
     "C03": ("sibling comparison (engine E7: fact sets over a bisimulation-style partition refinement of the SSA def-use graphs) of Optimal and Minimize; dominance analysis of the model snapshot; guard->constant tables of the results; linear-form check of the strengthening step (degree = maxCost - cost + 1, cost over true cost literals, stop at 0)",
             "Decides that both optimisation entry points compute the same strengthening constraint from the same quantities, that this constraint is the stated one, that results are built from the snapshot the cost was computed on, and that the constant results are returned under the stated conditions. Necessary conditions; optimality itself is not decided.",
             "DESIGN.md section 5, C03"),
